@@ -58,6 +58,20 @@ Link security, two ways:
                        run of steps (a wrong state persists over later events), or in `authentication-requirement/
                        link-authenticated-but-not-encrypted` (decided by the state, whichever event led to it);
                        authorization and access-bit refusals keep the class names of the direct-state cases.
+  real pairings        two bumble devices, one with a GATT server whose attributes require encryption / authentication,
+                       the other pairs with it through REAL SMP (Just Works three ways, passkey three ways, numeric
+                       comparison; legacy and SC; bonding asked by both / one / neither side; GATT server = link Central
+                       or Peripheral, SMP initiator or responder) and then reaches for the attributes through bumble's own
+                       GATT client (Read, Read Blob, Read Using Characteristic UUID, Read Multiple, Write Request, Write
+                       Command) before the pairing, after it, after a reconnection and after encrypt() on the new
+                       connection; every server->client ATT PDU on the wire is scanned as well. The link is authenticated
+                       iff Table 2.8 (vlib/ref_smp.py) gives a MITM-protected model for the two configurations (and the
+                       users saw the prompts of one), encrypted iff the server's host received Encryption Change (on).
+                       Keys end in `<requirement>-requirement/real-pairing/<model>-<bonded|not-bonded>/<stage>`. NOT judged
+                       (known finding .../authentication-requirement/after-encryption-on): the authentication requirement
+                       after encrypt() with a stored Just Works key on a new connection (counted as
+                       real_pairing_authentication_judgments_skipped_known_finding), and nothing is asked between the
+                       Encryption Change of a pairing and its completion.
 """
 from __future__ import annotations
 
@@ -82,7 +96,11 @@ RULE = ('cases enumerate permission-byte chunk (8 x 32 = all 256 bytes on value 
         'histories: 5 fixed histories of 10-11 link-security events (encryption up/down in every event form, '
         'authentication then loss of security, failure events, reconnections, Just Works pairing) x bearer + seeded '
         'random histories of 9 events; after every event the whole battery of operations is judged against the '
-        'state the events imply; distinct = (history, bearer, seed)')
+        'state the events imply; distinct = (history, bearer, seed). Real pairings: 8 IO / MITM-flag configurations (3 Just '
+        'Works, 3 passkey, numeric comparison / Just Works, numeric comparison / passkey) x {legacy, SC} x bonding asked by '
+        '{both, server only, client only, nobody}; server link role, SMP initiator, reconnection and delay by enumeration '
+        'over the running index; distinct = descriptor without seed; non-trivial when the pairing completed and the model '
+        'seen by the users is the one Table 2.8 gives')
 ASSUMPTIONS = [
     'direct-state cases: link security is what the server\'s Connection object says (encryption / authenticated set '
     'by the harness)',
@@ -108,6 +126,14 @@ ASSUMPTIONS = [
     'min(ATT_MTU - 3, 512)',
     'service and characteristic declarations are exercised as gatt.py builds them (read-only) and with permissions '
     'changed by the application after construction',
+    'real pairings: a pairing gives an authenticated link iff its association model (Vol 3 Part H Table 2.8 for the two IO '
+    'capabilities and AuthReq flags, transcribed in vlib/ref_smp.py) is passkey entry or numeric comparison, whether or '
+    'not the devices bond; any completed pairing gives an encrypted link; a new connection is plain until Encryption Change '
+    '(on) reaches the server\'s host; after encrypt() on a new connection the link is as authenticated as the pairing '
+    'that made the key, but for a Just Works key that judgment is left out (known finding '
+    '.../authentication-requirement/after-encryption-on); the users are honest and accept everything; pairing outcomes '
+    'themselves belong to C13 (a pairing that does not complete, or whose prompts contradict the table, is counted and '
+    'not judged)',
 ]
 ALT_ROUTES = ['strings', 'adapter', 'template', 'config-dict', 'config-file']      # vlib/att_peer.py ROUTES
 # deciding counters of the event-driven histories (quick; thorough: 6 x the fixed histories, 20 x the random ones)
@@ -179,6 +205,7 @@ def plan(tier, seed):
     for k in range(8 if tier == 'quick' else 160):
         cases.append({'kind': 'history', 'name': 'random', 'steps': random_history(hrng, 9),
                       'bearer': 'att' if k % 2 == 0 else 'eatt', 'seed': seed * 1000003 + 600000 + k})
+    cases += realpair_plan(tier, seed)
     return cases
 
 
@@ -737,6 +764,8 @@ async def run_case(case, r: R):
     logging.disable(logging.CRITICAL)
     if case.get('kind') == 'history':
         return await history_case(case, r)
+    if case.get('kind') == 'realpair':
+        return await realpair_case(case, r)
     from vlib import att_peer as ap
 
     rng = random.Random(case['seed'])
@@ -1086,6 +1115,485 @@ async def history_case(case, r: R):
                 'connection_handles': [hex(x) for x in handles_seen]}
 
 
+
+# -----------------------------------------------------------------------------
+# Real pairings: the link gets its security from a REAL SMP exchange between two bumble devices
+# -----------------------------------------------------------------------------
+# One device carries a GATT server whose attributes require encryption / authentication, the other pairs with it
+# through bumble's Security Manager (nothing injected: Manager.on_pairing -> Device.on_pairing is what bumble itself
+# runs) and then reaches for the attributes through bumble's own GATT client. What the link IS comes from the
+# specification alone: the association model Table 2.8 (vlib/ref_smp.py) gives for the two IO capabilities / AuthReq
+# flags (cross-checked against the prompts the two users actually saw) says whether the pairing gave MITM protection;
+# whether the link is encrypted comes from the HCI Encryption Change events the server's host received.
+RP_PERMS = [0x03, 0x07, 0x0B, 0x0F, 0x13, 0x23, 0x33, 0x3F, 0x17, 0x2B, 0x1B, 0x27]
+RP_PATTERNS = ['OAE', 'AO', 'EO', 'OBA', 'OE']
+RP_STAGES = ('before-pairing', 'after-pairing', 'after-reconnection', 'after-reencryption', 'after-reencryption-refused')
+RP_MODELS = {
+    # name: (SMP initiator IO, SMP responder IO, MITM requested by (initiator, responder))
+    'jw-initiator-no-io': ('NO_INPUT_NO_OUTPUT', 'KEYBOARD_DISPLAY', (True, True)),
+    'jw-responder-no-io': ('KEYBOARD_DISPLAY', 'NO_INPUT_NO_OUTPUT', (True, True)),
+    'jw-nobody-asks-mitm': ('KEYBOARD_DISPLAY', 'DISPLAY_YES_NO', (False, False)),
+    'passkey-responder-displays': ('KEYBOARD_ONLY', 'DISPLAY_ONLY', (True, True)),
+    'passkey-initiator-displays': ('DISPLAY_ONLY', 'KEYBOARD_ONLY', (True, False)),
+    'passkey-both-type': ('KEYBOARD_ONLY', 'KEYBOARD_ONLY', (False, True)),
+    'compare-or-jw': ('DISPLAY_YES_NO', 'DISPLAY_YES_NO', (True, True)),      # numeric comparison with SC, Just Works legacy
+    'compare-or-passkey': ('KEYBOARD_DISPLAY', 'KEYBOARD_DISPLAY', (True, True)),
+}
+REALPAIR_MIN = {
+    'real_pairings_completed': 60, 'real_pairings_just_works': 25, 'real_pairings_with_mitm_protection': 25,
+    'real_pairings_without_bonding': 25, 'real_pairings_just_works_without_bonding': 10,
+    'real_pairings_legacy': 25, 'real_pairings_secure_connections': 25,
+    'real_pairings_server_is_smp_initiator': 15, 'real_pairings_server_is_smp_responder': 20,
+    'real_pairings_server_is_link_central': 20, 'real_pairings_server_is_link_peripheral': 20,
+    'real_pairing_stages_judged': 150, 'real_pairing_refused_accesses_judged': 3000,
+    'real_pairing_refused_authentication_requirement_after_just_works': 600,
+    'real_pairing_granted_authentication_requirement_after_mitm_pairing': 300,
+    'real_pairing_granted_encryption_requirement_after_pairing': 600,
+    'real_pairing_ranged_reads': 600, 'real_pairing_wire_pdus_scanned': 6000,
+    'real_pairing_value_unchanged_checks': 1500,
+    'real_pairing_reconnections': 30, 'real_pairing_reencryptions_with_the_stored_bond': 12,
+    'real_pairing_authentication_judgments_skipped_known_finding': 100,
+    'real_pairings_with_a_resolving_list_fault': 12, 'real_pairing_resolving_list_commands_refused': 12,
+    'real_pairings_just_works_with_a_resolving_list_command_refused': 5,
+}
+MIN_EVENTS['quick'].update(REALPAIR_MIN)
+MIN_EVENTS['thorough'].update({k: v * 6 for k, v in REALPAIR_MIN.items()})
+
+
+def realpair_plan(tier, seed):
+    cases = []
+    reps = 1 if tier == 'quick' else 6
+    k = 0
+    for rep in range(reps):
+        for sc in (False, True):
+            for mname in RP_MODELS:
+                for bonding in ([True, True], [False, True], [True, False], [False, False]):
+                    # bonding = [client asks, server asks]; the rest by enumeration over the running index so that every
+                    # class meets every other over the plan
+                    k += 1
+                    cases.append({'kind': 'realpair', 'seed': seed * 1000003 + 700000 + rep * 977 + k, 'sc': sc,
+                                  'model': mname, 'bonding': bonding,
+                                  'server': (k // 2) % 2,                   # device index; device 0 is the link Central
+                                  'smp_initiator': 'client' if (k // 4 + k) % 3 else 'server',
+                                  'reconnect': k % 2 == 0, 'delay': (0, 0, 1, 2)[k % 4]})
+        # a rarely used configuration + a fault: the server offloads address resolution to its controller, and the
+        # controller refuses a command of the resolving-list refresh that storing the new bond triggers
+        for sc in (False, True):
+            for mi, mname in enumerate(RP_MODELS):
+                k += 1
+                cases.append({'kind': 'realpair', 'seed': seed * 1000003 + 700000 + rep * 977 + k, 'sc': sc,
+                              'model': mname, 'bonding': [True, True], 'server': (k // 2) % 2,
+                              'smp_initiator': 'client' if k % 3 else 'server', 'reconnect': False, 'delay': (0, 1)[k % 2],
+                              'fault': ('add-to-resolving-list-refused', 'clear-resolving-list-refused')[(mi + sc) % 2]})
+    return cases
+
+
+async def realpair_case(case, r: R):
+    import asyncio
+    from bumble import att, gatt
+    from bumble.core import UUID, ProtocolError
+    from bumble.keys import MemoryKeyStore
+    from bumble.pairing import PairingConfig, PairingDelegate
+    from vlib import ref_smp as rs, rig as vrig, vloop
+
+    rng = random.Random(case['seed'])
+    vrig.seed_entropy(case['seed'])
+    rg = vrig.Rig(2, seed=case['seed'], max_delay=case['delay'], le_acl_len=rng.choice([27, 251]))
+    S = case['server']
+    K = 1 - S
+    # SMP roles: C sends the Pairing Request
+    C = K if case['smp_initiator'] == 'client' else S
+    P = 1 - C
+    io_i, io_r, mitm = RP_MODELS[case['model']]
+    io = {C: getattr(rs, io_i), P: getattr(rs, io_r)}
+    mitm = {C: mitm[0], P: mitm[1]}
+    bonding = {K: case['bonding'][0], S: case['bonding'][1]}
+    sc = case['sc']
+
+    # ---- the two users -------------------------------------------------------------
+    seen = {'shown': None, 'typed': 0, 'compared': 0}
+    agreed = rng.randrange(1000000)
+
+    def delegate(i):
+        class User(PairingDelegate):
+            async def accept(self):
+                return True
+
+            async def confirm(self, auto=False):
+                return True
+
+            async def compare_numbers(self, number, digits):
+                seen['compared'] += 1
+                return True
+
+            async def display_number(self, number, digits):
+                seen['shown'] = number
+
+            async def get_number(self):
+                for _ in range(200):
+                    if seen['shown'] is not None:
+                        break
+                    await asyncio.sleep(0)
+                seen['typed'] += 1
+                return seen['shown'] if seen['shown'] is not None else agreed
+        return User(PairingDelegate.IoCapability(io[i]))
+
+    for i, d in enumerate(rg.devices):
+        d.keystore = MemoryKeyStore()
+        cfg = PairingConfig(sc=sc, mitm=mitm[i], bonding=bonding[i], delegate=delegate(i),
+                            identity_address_type=PairingConfig.AddressType.RANDOM)
+        d.pairing_config_factory = lambda connection, _c=cfg: _c
+
+    # ---- the database ----------------------------------------------------------------
+    class M:       # the harness's own record of an attribute
+        def __init__(self, index, perm, obj, group=None):
+            self.index, self.perm, self.obj, self.group = index, perm, obj, group
+            self.value = bytes(obj.value)
+
+        @property
+        def handle(self):
+            return self.obj.handle
+
+        def __repr__(self):
+            return f'value attribute {self.handle:#x} (permissions {self.perm:#04x})'
+
+    table = ra.MarkerTable()
+    models, groups = [], []
+    idx = itertools.count(1)
+
+    def make(uuid, perm, ln, group=None):
+        i = next(idx)
+        ch = gatt.Characteristic(uuid, gatt.Characteristic.Properties.READ | gatt.Characteristic.Properties.WRITE
+                                 | gatt.Characteristic.Properties.WRITE_WITHOUT_RESPONSE,
+                                 att.Attribute.Permissions(perm), ra.marker_value(i, ln))
+        m = M(i, perm, ch, group)
+        table.add(i, False)
+        models.append(m)
+        return ch
+
+    chars = [make(UUID.from_16_bits(0xA100 + k), p, rng.choice([8, 12, 18])) for k, p in enumerate(RP_PERMS)]
+    services = [gatt.Service(UUID.from_16_bits(0xA000), chars)]
+    for gi, pat in enumerate(RP_PATTERNS):
+        ln = rng.choice([6, 8, 12])
+        members = [make(UUID.from_16_bits(0xC000 + gi), H_SYMBOLS[sym], ln, gi) for sym in pat]
+        services.append(gatt.Service(UUID.from_16_bits(0xA010 + gi), members))
+        groups.append((pat, UUID.from_16_bits(0xC000 + gi), [m for m in models if m.group == gi]))
+    rg.devices[S].add_services(services)
+    fault = case.get('fault')
+    armed = {'on': False, 'hits': 0}
+    if fault:
+        rg.devices[S].address_resolution_offload = True
+        # Command Complete (Vol 4 Part E 7.7.14: 04 0E len Num_HCI_Command_Packets Opcode Status ...) for LE Add Device To
+        # Resolving List (OGF 8 OCF 0x27) / LE Clear Resolving List (OCF 0x29): status := Memory Capacity Exceeded
+        opcode = 0x2027 if fault == 'add-to-resolving-list-refused' else 0x2029
+
+        def refuse(pkt: bytes):
+            if armed['on'] and len(pkt) >= 7 and pkt[0] == 0x04 and pkt[1] == 0x0E and \
+                    int.from_bytes(pkt[4:6], 'little') == opcode and pkt[6] == 0:
+                armed['hits'] += 1
+                return pkt[:6] + b'\x07' + pkt[7:]
+            return pkt
+        rg.c2h[S].filters.append(refuse)
+    await rg.power_on()
+
+    st = {'enc': False, 'auth': False, 'stage': 'before-pairing', 'cls': 'unpaired', 'skip_authn': False}
+    serial = itertools.count(7000)
+    conns = {}
+    marks = {'log': 0}
+
+    def readable(m):
+        return ra.allowed_read(m.perm, st['enc'], st['auth'])
+
+    def writable(m):
+        return ra.allowed_write(m.perm, st['enc'], st['auth'])
+
+    def skipped(m, write=False):
+        """the known finding (.../authentication-requirement/after-encryption-on): after encrypt() with a stored
+        Just Works bond bumble marks the link authenticated; those judgments are left to the event-driven histories"""
+        return st['skip_authn'] and ra.unmet_requirement(m.perm, st['enc'], st['auth'], write) == 'authentication'
+
+    def reason(m, write=False):
+        unmet = ra.unmet_requirement(m.perm, st['enc'], st['auth'], write)
+        return f'{unmet}-requirement/real-pairing/{st["cls"]}/{st["stage"]}'
+
+    def state_text():
+        sconn = conns[S]
+        return (f'enc={st["enc"]} auth={st["auth"]} ({st["cls"]}, {st["stage"]}); the server\'s Connection says '
+                f'(encryption, authenticated)=({sconn.encryption}, {sconn.authenticated}); {desc}')
+
+    def refused():
+        r.ev('refused_accesses_judged')
+        r.ev('real_pairing_refused_accesses_judged')
+        r.ev('oracle_evals')
+        if st['stage'] == 'after-pairing' and not st['auth']:
+            r.ev('real_pairing_refused_authentication_requirement_after_just_works')
+
+    def granted(m, write=False):
+        r.ev('granted_accesses_seen')
+        bit_e, bit_a = (ra.P_WRITE_ENC, ra.P_WRITE_AUTHN) if write else (ra.P_READ_ENC, ra.P_READ_AUTHN)
+        if st['stage'] == 'after-pairing':
+            if m.perm & bit_a:
+                r.ev('real_pairing_granted_authentication_requirement_after_mitm_pairing')
+            elif m.perm & bit_e:
+                r.ev('real_pairing_granted_encryption_requirement_after_pairing')
+
+    async def client_call(aw):
+        """an operation of bumble's GATT client: ('ok', value) / ('att-error', code) / ('raised', text)"""
+        try:
+            return 'ok', await vloop.vwait(aw, 60)
+        except att.ATT_Error as e:
+            return 'att-error', int(e.error_code)
+        except vloop.Hang:
+            raise
+        except Exception as e:         # the code under test
+            return 'raised', f'{type(e).__name__}: {e}'
+
+    def judge_error(opn, m, res, codes, write=False):
+        if res[0] == 'att-error' and res[1] in codes:
+            r.ev('refusals_with_matching_error')
+            return True
+        if res[0] == 'att-error' and res[1] in (ra.E_ATTRIBUTE_NOT_LONG, ra.E_INVALID_OFFSET):
+            r.bad(f'perm/{opn}/granted/{reason(m, write)}',
+                  f'{opn} of {m} through the GATT client answered by error {res[1]:#x}, which is decided from the value '
+                  f'(its length) instead of the permission; {state_text()}')
+        elif res[0] == 'att-error':
+            r.bad(f'perm/{opn}/wrong-reply/{reason(m, write)}',
+                  f'{opn} of {m} through the GATT client was refused with error {res[1]:#x}; acceptable codes '
+                  f'{sorted(codes)}; {state_text()}')
+        elif res[0] == 'raised':
+            r.bad(f'perm/{opn}/unanswered/{reason(m, write)}', f'{opn} of {m} through the GATT client: {res[1]}; {state_text()}')
+        return False
+
+    async def battery():
+        client = conns[K].gatt_client
+        order = list(models)
+        rng.shuffle(order)
+        # reads: Read Request (+ Read Blob continuation inside the client), Read Blob
+        for m in order:
+            for opn, aw in (('read', lambda: client.read_value(m.handle)),
+                            ('read-blob', lambda: client.send_request(att.ATT_Read_Blob_Request(
+                                attribute_handle=m.handle, value_offset=rng.choice([0, 1]))))):
+                res = await client_call(aw())
+                if opn == 'read-blob' and res[0] == 'ok':
+                    rsp = res[1]
+                    res = ('att-error', int(rsp.error_code)) if rsp.op_code == att.Opcode.ATT_ERROR_RESPONSE else \
+                        ('ok', bytes(rsp.part_attribute_value))
+                if readable(m):
+                    if res[0] == 'ok':
+                        granted(m)
+                    continue
+                if skipped(m):
+                    r.ev('real_pairing_authentication_judgments_skipped_known_finding')
+                    continue
+                refused()
+                if res[0] == 'ok':
+                    r.bad(f'perm/{opn}/granted/{reason(m)}',
+                          f'{opn} of {m} through the GATT client returned {bytes(res[1])[:20].hex()} (the attribute holds '
+                          f'{m.obj.value[:20].hex()}); not readable with {state_text()}')
+                else:
+                    judge_error(opn, m, res, ra.read_refusal_codes(m.perm, st['enc'], st['auth']))
+        # ranged reads (Read Using Characteristic UUID) and Read Multiple over groups that mix requirements
+        for pat, uuid, members in groups:
+            r.ev('mixed_order_requests')
+            r.ev('real_pairing_ranged_reads')
+            res = await client_call(client.read_characteristics_by_uuid(uuid, None))
+            prot = [m for m in members if not readable(m) and not skipped(m)]
+            if prot:
+                refused()
+                values = [bytes(v) for v in res[1]] if res[0] == 'ok' else []
+                leaked = [m for m in prot if any(table.find(v) & {m.index} for v in values)]
+                if leaked:
+                    r.bad(f'perm/read-by-type/granted/{reason(leaked[0])}',
+                          f'read_characteristics_by_uuid({uuid}) over pattern {pat} returned {[v.hex() for v in values]}, '
+                          f'which holds the value of {leaked}; {state_text()}')
+            handles = [m.handle for m in members]
+            if rng.random() < 0.5:
+                handles.reverse()
+            r.ev('mixed_order_requests')
+            r.ev('real_pairing_ranged_reads')
+            res = await client_call(client.send_request(att.ATT_Read_Multiple_Request(set_of_handles=handles)))
+            if prot:
+                refused()
+                if res[0] == 'ok' and res[1].op_code != att.Opcode.ATT_ERROR_RESPONSE:
+                    body = bytes(res[1].set_of_values)
+                    first = min(handles.index(m.handle) for m in prot)
+                    room = sum(len(x.value) for x in members if handles.index(x.handle) < first)
+                    if table.find(body) & {m.index for m in prot} or len(body) > room:
+                        r.bad(f'perm/read-multiple/granted/{reason(prot[0])}',
+                              f'Read Multiple {[hex(h) for h in handles]} (pattern {pat}) answered {body.hex()} although '
+                              f'{prot} are not readable; {state_text()}')
+                elif res[0] == 'ok':
+                    rsp = res[1]
+                    ok = any(rsp.attribute_handle_in_error == m.handle and
+                             rsp.error_code in ra.read_refusal_codes(m.perm, st['enc'], st['auth']) for m in prot)
+                    if ok:
+                        r.ev('refusals_with_matching_error')
+                    else:
+                        r.bad(f'perm/read-multiple/wrong-reply/{reason(prot[0])}',
+                              f'Read Multiple {[hex(h) for h in handles]} answered by error {int(rsp.error_code):#x} for '
+                              f'handle {rsp.attribute_handle_in_error:#x}; not readable: {prot}; {state_text()}')
+        # writes: Write Request and Write Command
+        rng.shuffle(order)
+        for m in order:
+            for opn, with_response in (('write', True), ('write-command', False)):
+                n = next(serial)
+                new = ra.marker_value(n, rng.choice([4, 8, 16]), written=True)
+                before = bytes(m.obj.value)
+                res = await client_call(client.write_value(m.handle, new, with_response=with_response))
+                await rg.quiesce()
+                after = bytes(m.obj.value)
+                if writable(m):
+                    if after == new:
+                        granted(m, write=True)
+                        table.add(n, True, key=m.index)
+                        m.value = after
+                    continue
+                if skipped(m, write=True):
+                    r.ev('real_pairing_authentication_judgments_skipped_known_finding')
+                    if after != before:
+                        table.add(n, True, key=m.index)
+                        m.value = after
+                    continue
+                refused()
+                r.ev('value_unchanged_checks')
+                r.ev('real_pairing_value_unchanged_checks')
+                if after != before:
+                    r.bad(f'perm/{opn}/changed/{reason(m, True)}',
+                          f'{opn} to {m} through the GATT client changed the server-side value from {before.hex()} to '
+                          f'{after.hex()}; not writable with {state_text()}')
+                    m.obj.value = before
+                elif with_response:
+                    if res[0] == 'ok':
+                        r.bad(f'perm/{opn}/granted/{reason(m, True)}',
+                              f'{opn} to {m} through the GATT client was answered by a Write Response; not writable with '
+                              f'{state_text()}')
+                    else:
+                        judge_error(opn, m, res, ra.write_refusal_codes(m.perm, st['enc'], st['auth']), write=True)
+        await rg.quiesce()
+        # the wire: no server->client ATT PDU of this stage carries the value of an attribute the link may not read
+        pdus = [x for x in vrig.l2cap_log(rg.hci_log[marks['log']:], dev=S, direction=vrig.H2C) if x[4] == 0x0004]
+        marks['log'] = len(rg.hci_log)
+        hidden = {m.index: m for m in models if not readable(m) and not skipped(m)}
+        for _seq, _dev, _dir, _h, _cid, payload in pdus:
+            r.ev('disclosure_scans')
+            r.ev('real_pairing_wire_pdus_scanned')
+            r.ev('oracle_evals')
+            for key in table.find(payload):
+                if key in hidden:
+                    r.bad(f'perm/disclosed/{ra.opname(payload[0])}/{reason(hidden[key])}',
+                          f'value of {hidden[key]} appears in {ra.opname(payload[0])} on the wire: {payload[:40].hex()}; not '
+                          f'readable with {state_text()}')
+        r.ev('real_pairing_stages_judged')
+        r.ev(f'real_pairing_stage_{st["stage"]}')
+
+    async def connect():
+        cc, pc = await rg.connect_le(0, 1)
+        await rg.quiesce()
+        conns[0], conns[1] = cc, pc
+        marks['hci'] = len(rg.hci_log)
+
+    def encryption_on_at_server():
+        """HCI Encryption Change (v1 0x08 / v2 0x59), status success, for the server's connection handle, as delivered
+        to the server's host since the connection was made: the last one decides (Vol 4 Part E 7.7.8)"""
+        on = False
+        for _seq, dev, direction, pkt, _t in rg.hci_log[marks['hci']:]:
+            if dev == S and direction == vrig.C2H and pkt[0] == 0x04 and pkt[1] in (0x08, 0x59) and pkt[3] == 0 and \
+                    int.from_bytes(pkt[4:6], 'little') & 0x0FFF == conns[S].handle:
+                on = pkt[6] != 0
+        return on
+
+    def auth_bits(i):
+        return (rs.AUTH_BONDING if bonding[i] else 0) | (rs.AUTH_MITM if mitm[i] else 0) | (rs.AUTH_SC if sc else 0)
+
+    exp_sc, (exp_model, _ri, _rr) = rs.expected_model(io[C], io[P], auth_bits(C), auth_bits(P), 0, 0)
+    bonded = bonding[0] and bonding[1]
+    desc = (f'{"the server offloads address resolution and its controller answers " + fault + "; " if fault else ""}'
+            f'GATT server on device {S} (link {"Central" if S == 0 else "Peripheral"}, SMP {"initiator" if S == C else "responder"}), '
+            f'{"SC" if sc else "legacy"} pairing {case["model"]} -> Table 2.8: {exp_model}; bonding asked by client/server = '
+            f'{bonding[K]}/{bonding[S]}; seed {case["seed"]}')
+
+    await connect()
+    await battery()
+
+    # ---- the pairing, run by bumble's Security Manager on both sides ---------------------------------------------
+    done = {0: [], 1: []}
+    for i in (0, 1):
+        conns[i].on('pairing', lambda keys, _i=i: done[_i].append('paired'))
+        conns[i].on('pairing_failure', lambda reason, _i=i: done[_i].append('failed'))
+    armed['on'] = True
+    try:
+        await vloop.vwait(conns[C].pair())
+        paired = True
+    except vloop.Hang:
+        raise
+    except (ProtocolError, asyncio.CancelledError, Exception) as e:      # pairing outcomes belong to C13
+        paired = False
+        r.ev('real_pairings_failed_left_to_C13')
+        r.add_extra_list('real_pairing_failures', f'{case["model"]}/{"sc" if sc else "legacy"}: {type(e).__name__}: {e}')
+    await rg.quiesce()
+    for _ in range(30):
+        if done[P]:
+            break
+        await asyncio.sleep(1)
+    await rg.quiesce()
+    prompts = 'passkey' if (seen['shown'] is not None or seen['typed']) else ('compare' if seen['compared'] else 'none')
+    mitm_expected = rs.is_authenticated_model(exp_model)
+    if paired and encryption_on_at_server() and mitm_expected == (prompts != 'none'):
+        r.ev('real_pairings_completed')
+        r.ev('real_pairings_with_mitm_protection' if mitm_expected else 'real_pairings_just_works')
+        r.ev('real_pairings_secure_connections' if exp_sc else 'real_pairings_legacy')
+        r.ev(f'real_pairings_server_is_smp_{"initiator" if S == C else "responder"}')
+        r.ev(f'real_pairings_server_is_link_{"central" if S == 0 else "peripheral"}')
+        if not bonded:
+            r.ev('real_pairings_without_bonding')
+            if not mitm_expected:
+                r.ev('real_pairings_just_works_without_bonding')
+        if fault:
+            r.ev('real_pairings_with_a_resolving_list_fault')
+            r.ev('real_pairing_resolving_list_commands_refused', armed['hits'])
+            if armed['hits'] and not mitm_expected:
+                r.ev('real_pairings_just_works_with_a_resolving_list_command_refused')
+        st.update(enc=True, auth=mitm_expected, stage='after-pairing',
+                  cls=f'{exp_model}-{"bonded" if bonded else "not-bonded"}' + (f'+{fault}' if fault else ''))
+        await battery()
+        r.sig('realpair', case['model'], sc, tuple(case['bonding']), S, case['smp_initiator'], case['reconnect'])
+    else:
+        r.ev('real_pairings_not_judged')
+        r.add_extra_list('real_pairings_not_judged', f'{case["model"]}/{"sc" if sc else "legacy"}: paired={paired} '
+                         f'prompts={prompts} table={exp_model} encrypted={encryption_on_at_server()}')
+        case = dict(case, reconnect=False)
+    # ---- a new connection starts plain; encrypt() with the stored bond ----------------------------------------------
+    if case['reconnect']:
+        who = rng.choice([0, 1])
+        gone = asyncio.get_running_loop().create_future()
+        conns[1 - who].once('disconnection', lambda *_a: gone.done() or gone.set_result(None))
+        await vloop.vwait(conns[who].disconnect())
+        await vloop.vwait(gone, 60)
+        await rg.quiesce()
+        await connect()
+        r.ev('real_pairing_reconnections')
+        st.update(enc=False, auth=False, stage='after-reconnection')
+        await battery()
+        res = await client_call(conns[0].encrypt())
+        await rg.quiesce()
+        if encryption_on_at_server():
+            # encrypted with the key of the bond: as authenticated as the pairing that made it. Just Works bond: bumble
+            # marks the link authenticated all the same (known finding .../authentication-requirement/after-encryption-on,
+            # judged by the event-driven histories): the authentication requirement is not judged here
+            r.ev('real_pairing_reencryptions_with_the_stored_bond')
+            st.update(enc=True, auth=mitm_expected, stage='after-reencryption', skip_authn=not mitm_expected)
+        else:
+            r.ev('real_pairing_reencryptions_refused')
+            st.update(enc=False, auth=False, stage='after-reencryption-refused')
+        await battery()
+    for where, e in rg.exceptions:
+        r.ev('real_pairing_exceptions_in_stack_left_to_other_checks')
+    r.sched.add(rg.schedule_signature)
+    r.evals()
+    r.sample = {'kind': 'realpair', 'config': desc, 'prompts': prompts, 'stages': st['stage'],
+                'attributes': len(models), 'link_security_by_the_spec': {'encrypted': st['enc'], 'authenticated': st['auth']}}
+
+
 LEVEL_TEXT = ('Independent permission predicate + unique marker values: for 144 (quick) / 1152 (thorough) sessions covering '
               'all 256 permission bytes on value attributes and on descriptors, three link-security states and both bearer '
               'kinds, every attribute of a generated database (values, descriptors, CCCDs, declarations, built-in services) '
@@ -1102,7 +1610,11 @@ LEVEL_TEXT = ('Independent permission predicate + unique marker values: for 144 
               'the link its security through the events the stack receives (Encryption Change v1/v2 on/off/failed, Key '
               'Refresh, Authentication Complete, pairing completion with an authenticated or a Just Works key, '
               'reconnection on the same handle) and repeat the whole battery after every event against an independent '
-              'model of the state those events imply, security going down included. Enumeration of paths, flags and '
+              'model of the state those events imply, security going down included. 80 (quick) / 480 (thorough) real pairings '
+              '(Just Works / passkey / numeric comparison x legacy / SC x bonding asked by both / one / neither side, 16 / 96 of them with the server offloading address resolution and its controller refusing a resolving-list command while the bond is stored, GATT '
+              'server as link Central or Peripheral and as SMP initiator or responder) run bumble\'s own SMP on both sides '
+              'and then bumble\'s own GATT client against attributes requiring encryption / authentication, before and after '
+              'the pairing, after a reconnection and after re-encryption with the stored key. Enumeration of paths, flags and '
               'event orders on sampled databases, not proof.')
 LEVEL_NOTE = ('Trusted: vlib/ref_att.py (predicate, layouts, marker scan, LinkSecurity model, HCI event bytes), '
               'vlib/att_peer.py. Direct-state cases set link security on the server Connection object; histories inject '
